@@ -3221,6 +3221,21 @@ class Trimesh(Geometry3D):
             # will be dumped in the new mesh but preserved
             # in the original mesh
             copied._cache.cache.update(self._cache.cache)
+            # read-only arrays and meshes in the cache can be shared but
+            # whoever holds a cached list (`vertex_neighbors`), graph or
+            # sparse matrix can edit it: the copy gets its own
+            for key, value in self._cache.cache.items():
+                if type(value) is Trimesh and value.mutable:
+                    copied._cache.cache[key] = value.copy(include_cache=True)
+                elif isinstance(value, list):
+                    copied._cache.cache[key] = [
+                        v
+                        if isinstance(v, np.ndarray) and not v.flags.writeable
+                        else copy.deepcopy(v)
+                        for v in value
+                    ]
+                elif type(value).__module__.startswith(("networkx", "scipy.sparse")):
+                    copied._cache.cache[key] = value.copy()
 
         return copied
 
